@@ -43,7 +43,21 @@ RULE = ("irreducible row-stochastic matrices with 3..7 states (thorough: ..9) fr
         "strides, flags, nnz, index sets and populations; the definitions REGENERATED from the current source (Gen/TptGen.v, vm_compute over Q) must agree to 1e-9 relative "
         "and, for chains with at most 4 states, coincide exactly with the hand-written model (for all inputs that is a theorem), the oracle evaluates the "
         "first-step equations, bounds, column agreement, lag linearity, container agreement and input preservation on "
-        "the implementation's output. non-trivial := at least 3 states and at least one state that is neither source "
+        "the implementation's output. Round 3s second wave: (a) stream `intdtype`: cyclic permutation matrices (3..7 states, thorough ..9, labels "
+        "shuffled) -- and every other 0/1 chain of the run -- also held as int64 / int32 / bool / uint8 ndarray and int64 / int32 / bool csr, csc, "
+        "coo, lil matrices (bool / uint8 not through the all-pairs table with populations=None: scipy's eigen-solver promotes them to single "
+        "precision), lag times 1/2, 5/2, 3 through mfpts single sink / sink set / all pairs (populations computed and given) and committors; "
+        "(b) stream `nearsym` (24 quick / 192 thorough): rare-event chains symmetric except for entries below 2^-27: two exactly symmetric basins "
+        "(entries c/16) joined by 1..3 crossings of probability m 2^-e one way, m' 2^-e' the other (e != e' in 28..35: unequal basin weights), "
+        "labels shuffled, through the all-pairs table with populations=None (5 of 6) or given, on every container and layout, checked by the "
+        "first-step equations, column agreement with the single-sink routine and container agreement at the ABSOLUTE tolerance "
+        "2^-44 S^2 lag (S = largest exact mean first-passage time in steps <= 2^37; at most 0.8 % of S; the unchanged code's table is off by "
+        "<= 2.5 * 2^-52 S^2, i.e. the tolerance is 85..100 x the worst deviation seen over 1200 chains; crossings below 2^-35 are not "
+        "generated because there the unchanged table itself is 1e-4..1e-3 off); oracle only; (c) stream `large` (10 quick / 40 thorough): "
+        "60..300 states with 3..10 % of the transitions present (a cycle through all states plus random transitions, reversible or not) "
+        "through committors, mfpts to sink sets and (60..90 states) the all-pairs table on ndarray (C and Fortran order) and csr / csc / coo / "
+        "lil / dok / bsr / dia, at the ordinary 1e-9: first-step equations exactly in rationals, sparse against dense; oracle only (exact "
+        "elimination in Coq is kept to <= 9 states). non-trivial := at least 3 states and at least one state that is neither source "
         "nor sink with a committor strictly between 0 and 1 (committors) / at least two non-sink states (mfpts)")
 TRUSTED = ["translator/tr_tpt.py (fail-closed symbolic reading of _I_m_Q / committors / mfpts into Gen/TptGen.v) and the meaning "
            "of the array vocabulary Base/TptBase.v (NumPy fancy indexing, item assignment, broadcasting, axis sums) -- both "
@@ -56,8 +70,11 @@ TRUSTED = ["translator/tr_tpt.py (fail-closed symbolic reading of _I_m_Q / commi
            "cases hand the eigen-solver's eq_probs output to the model as the populations argument",
            "comparison of doubles with exact rationals at relative tolerance 1e-9"]
 ASSUMPTIONS = ["state indices are non-negative (NumPy's negative-index wrap-around is outside the model)",
-               "theorems assume duplicate-free, disjoint source and sink lists and exact rational arithmetic"]
-SHARD = 24
+               "theorems assume duplicate-free, disjoint source and sink lists and exact rational arithmetic",
+               "near-symmetric rare-event stream: crossing probabilities 2^-28..2^-35 and largest mean first-passage time <= 2^37 steps "
+               "(beyond that the unchanged code's all-pairs table is itself 1e-4..1e-3 off); tolerance relative to the square of the time scale",
+               "boolean / 8-bit integer transition matrices: not through mfpts(populations=None) (single-precision eigen-solve, like float32)"]
+SHARD = 12     # nondyadic 9-state all-pairs cases cost ~1 min each in Coq: 24 of them in one file came close to the per-file time limit on a loaded machine
 EXHAUSTIVE = {"thorough": False}
 ESSENTIAL_TAGS = ["comm", "comm-multi-sink", "comm-multi-source", "mfpt-sinks", "mfpt-multi-sink", "mfpt-all",
                   "mfpt-all-pops-given", "reversible", "nonreversible", "dyadic", "nondyadic", "index-error",
@@ -70,7 +87,13 @@ ESSENTIAL_TAGS = ["comm", "comm-multi-sink", "comm-multi-source", "mfpt-sinks", 
                   "hist-committors", "hist-mfpt-sinks", "hist-mfpt-all", "hist-same-call-again",
                   "hist-matrix-overwritten-in-place", "hist-sets-overwritten-in-place",
                   "hist-populations-overwritten-in-place", "hist-all-calls-returned",
-                  "hist-result-scale", "hist-result-reverse", "hist-result-fill"]
+                  "hist-result-scale", "hist-result-reverse", "hist-result-fill",
+                  # round 3s, second wave
+                  "int-dtype-committors", "int-dtype-mfpt-sinks", "int-dtype-mfpt-all", "int-dtype-noninteger-lag-mfpt-sinks",
+                  "int-dtype-noninteger-lag-mfpt-multi-sink", "int-dtype-noninteger-lag-mfpt-all",
+                  "nearsym-all-pairs-pops-none", "nearsym-all-pairs-pops-given",
+                  "large-sparse-committors", "large-sparse-mfpt-sinks", "large-sparse-mfpt-all",
+                  "large-sparse-200plus-committors", "large-sparse-200plus-mfpt-sinks"]
 CONTAINERS = ["dense", "csr", "csc", "coo", "lil"]
 TOL = F(1, 10 ** 9)
 
@@ -92,15 +115,17 @@ def _strongly_connected(C):
 
 
 def _all_reach(C, A):
+    """every state reaches the set A (breadth-first search along reversed transitions)"""
     n = len(C)
-    seen = set(A)
-    changed = True
-    while changed:
-        changed = False
-        for i in range(n):
-            if i not in seen and any(C[i][j] > 0 and j in seen for j in range(n)):
+    pred = [[i for i in range(n) if C[i][j] > 0] for j in range(n)]
+    seen = set(a for a in A if 0 <= a < n)
+    st = list(seen)
+    while st:
+        j = st.pop()
+        for i in pred[j]:
+            if i not in seen:
                 seen.add(i)
-                changed = True
+                st.append(i)
     return len(seen) == n
 
 
@@ -254,6 +279,190 @@ def _same_pattern(rng, C, rev, dyadic):
         if D != C and all((D[i][j] > 0) == (C[i][j] > 0) for i in range(n) for j in range(n)):
             return D
     return None
+
+
+def _sym_block(rng, n, k):
+    """connected symmetric count matrix whose every row sums to 2^k (diagonal topped up): divided by 2^k an exactly
+    symmetric, doubly sub-stochastic block"""
+    for _ in range(200):
+        C = [[0] * n for _ in range(n)]
+        for i in range(n):
+            for j in range(i + 1, n):
+                if rng.random() < 0.8:
+                    C[i][j] = C[j][i] = rng.randint(1, 3)
+        if n > 1 and not _strongly_connected(C):
+            continue
+        if all(sum(r) < 2 ** k for r in C):
+            for i in range(n):
+                C[i][i] = 2 ** k - sum(C[i])
+            return C
+    return None
+
+
+def _exact_mfpt_steps(C):
+    """exact all-pairs mean first-passage times in steps (Fractions; None when a column system is singular)"""
+    n = len(C)
+    T = [[F(x, sum(r)) for x in r] for r in C]
+    out = [[F(0)] * n for _ in range(n)]
+    for j in range(n):
+        idx = [i for i in range(n) if i != j]
+        m = len(idx)
+        A = [[(1 if r == c else 0) - T[r][c] for c in idx] + [F(1)] for r in idx]
+        for col in range(m):
+            piv = next((r for r in range(col, m) if A[r][col] != 0), None)
+            if piv is None:
+                return None
+            A[col], A[piv] = A[piv], A[col]
+            p = A[col][col]
+            A[col] = [x / p for x in A[col]]
+            for r in range(m):
+                if r != col and A[r][col] != 0:
+                    f = A[r][col]
+                    A[r] = [x - f * y for x, y in zip(A[r], A[col])]
+        for r, i in enumerate(idx):
+            out[i][j] = A[r][m]
+    return out
+
+
+NEARSYM_MAX_STEPS = 2 ** 37     # see _nearsym_atol
+
+
+def _nearsym(rng):
+    """rare-event chain that is symmetric except for entries below 1e-8: two exactly symmetric basins (dyadic entries
+    c/16) joined by 1..3 crossings with probability m 2^-e1 one way and m' 2^-e2 the other way (e1 != e2 in 28..35, so
+    the basins carry unequal weight: the stationary vector is far from uniform although max|T - T^T| < 2^-27); state
+    labels shuffled.  Counts with row sum 2^K: the double matrix is exactly stochastic."""
+    for _ in range(100):
+        a, b, k = rng.randint(2, 4), rng.randint(2, 4), 4
+        e1 = rng.randint(28, 35)
+        e2 = e1 + rng.choice([-3, -2, -1, 1, 2, 3])
+        if not 28 <= e2 <= 35:
+            continue
+        A, B = _sym_block(rng, a, k), _sym_block(rng, b, k)
+        if A is None or B is None:
+            continue
+        n, K = a + b, max(e1, e2) + k
+        C = [[0] * n for _ in range(n)]
+        for i in range(a):
+            for j in range(a):
+                C[i][j] = A[i][j] << (K - k)
+        for i in range(b):
+            for j in range(b):
+                C[a + i][a + j] = B[i][j] << (K - k)
+        for _ in range(rng.choice([1, 1, 2, 3])):
+            i, j = rng.randrange(a), a + rng.randrange(b)
+            if C[i][j]:
+                continue
+            C[i][j] = rng.randint(1, 2) << (K - e1)
+            C[j][i] = rng.randint(1, 2) << (K - e2)
+            C[i][i] -= C[i][j]
+            C[j][j] -= C[j][i]
+        if min(C[i][i] for i in range(n)) <= 0 or not all(sum(r) == 2 ** K for r in C):
+            continue
+        perm = list(range(n))
+        rng.shuffle(perm)
+        C = [[C[perm[i]][perm[j]] for j in range(n)] for i in range(n)]
+        if max(abs(C[i][j] - C[j][i]) for i in range(n) for j in range(n)) >= 2 ** (K - 27):
+            continue
+        E = _exact_mfpt_steps(C)
+        if E is None or max(max(r) for r in E) > NEARSYM_MAX_STEPS:
+            continue
+        return C
+    return None
+
+
+def _nearsym_atol(c):
+    """Tolerance of the near-symmetric rare-event stream (absolute, for every entry of the table): these chains are stiff
+    (I - T + W has condition ~ S, the largest mean first-passage time in steps), the unchanged code's all-pairs table
+    is off by up to 2.5 * 2^-52 * S^2 steps (measured over 600 chains, single-sink columns 0.16 * 2^-52 * S^2); allowed:
+    2^-44 * S^2 (100 x the worst seen), which with S <= 2^37 is below 0.8 % of S.  (At crossings of 2^-40 the
+    unchanged table is itself 1e-3 off, which is why the stream stops at 2^-35 and S <= 2^37.)"""
+    E = _exact_mfpt_steps(c["counts"])
+    S = max(max(r) for r in E)
+    return F(c["lag"]) * S * S / 2 ** 44
+
+
+def _large_counts(rng, n, dens, rev):
+    """irreducible chain on many states with few transitions per state: a cycle through all states in a shuffled order
+    (both directions when symmetric) plus random transitions at the given density, a self transition on half of the
+    states"""
+    order = list(range(n))
+    rng.shuffle(order)
+    C = [[0] * n for _ in range(n)]
+    for a, b in zip(order, order[1:] + order[:1]):
+        C[a][b] = rng.randint(1, 6)
+        if rev:
+            C[b][a] = C[a][b]
+    for i in range(n):
+        for j in range(i + 1 if rev else 0, n):
+            if rng.random() < dens:
+                C[i][j] = rng.randint(1, 6)
+                if rev:
+                    C[j][i] = C[i][j]
+        if rng.random() < 0.5:
+            C[i][i] = rng.randint(1, 6)
+    return C
+
+
+def _cycle(rng, n):
+    """a single n-cycle with shuffled labels: the irreducible 0/1 stochastic matrices (legal with an integer or
+    boolean dtype)"""
+    order = list(range(n))
+    rng.shuffle(order)
+    C = [[0] * n for _ in range(n)]
+    for a, b in zip(order, order[1:] + order[:1]):
+        C[a][b] = 1
+    return C
+
+
+def _round3s2_cases(rng, big):
+    out = []
+    # (a) integer / boolean transition matrices (cyclic permutation matrices) x lag times 1/2, 5/2, 3, every entry point
+    forms = ["sink1", "sinks", "all-none", "all-given", "comm"]
+    k = 0
+    for n in [3, 4, 5, 6, 7] + ([8, 9] if big else []):
+        for lag in ["1/2", "5/2", "3"]:
+            for rep in range(2 if not big else 4):
+                C = _cycle(rng, n)
+                form = forms[k % 5]
+                k += 1
+                if form == "comm" and rep == 0:
+                    src, snk = _sets(rng, n)
+                    out.append({"kind": "comm", "n": n, "counts": C, "src": src, "snk": snk, "stream": "intdtype"})
+                    form = forms[k % 5]
+                    k += 1
+                if form == "comm":
+                    form = "sinks"
+                if form in ("sink1", "sinks"):
+                    snk = [rng.randrange(n)] if form == "sink1" or n < 4 else rng.sample(range(n), rng.randint(2, min(3, n - 1)))
+                    out.append({"kind": "mfpt_s", "n": n, "counts": C, "snk": snk, "lag": lag, "stream": "intdtype"})
+                else:
+                    out.append({"kind": "mfpt_a", "n": n, "counts": C, "lag": lag, "pops": form[4:], "stream": "intdtype"})
+    # (b) near-symmetric rare-event chains through the all-pairs table (populations computed, mostly)
+    for k in range(24 * (8 if big else 1)):
+        C = _nearsym(rng)
+        if C is not None:
+            out.append({"kind": "mfpt_a", "n": len(C), "counts": C, "lag": rng.choice(["1", "5/2", "10"]),
+                        "pops": "given" if k % 6 == 5 else "none", "stream": "nearsym"})
+    # (c) many states, few transitions per state: sparse solves that are not small (oracle only)
+    plan = [("comm", 60), ("comm", 90), ("comm", 130), ("comm", 200), ("comm", 300), ("mfpt_s", 70), ("mfpt_s", 160),
+            ("mfpt_s", 260), ("mfpt_a", 60), ("mfpt_a", 80)]
+    for rep in range(4 if big else 1):
+        for kind, n in plan:
+            if rep:
+                n = rng.randint(60, 300 if kind != "mfpt_a" else 90)
+            C = _large_counts(rng, n, rng.choice([0.03, 0.05, 0.07, 0.10]), rng.random() < 0.5)
+            if kind == "comm":
+                perm = rng.sample(range(n), 6)
+                ks, kt = rng.randint(1, 3), rng.randint(1, 3)
+                out.append({"kind": "comm", "n": n, "counts": C, "src": perm[:ks], "snk": perm[3:3 + kt], "stream": "large"})
+            elif kind == "mfpt_s":
+                out.append({"kind": "mfpt_s", "n": n, "counts": C, "snk": rng.sample(range(n), rng.randint(1, 3)),
+                            "lag": rng.choice(["1", "5/2", "10"]), "stream": "large"})
+            else:
+                out.append({"kind": "mfpt_a", "n": n, "counts": C, "lag": rng.choice(["1", "5/2"]),
+                            "pops": "none" if len(out) % 2 else "given", "stream": "large"})
+    return out
 
 
 def _hist_cases(rng, count, sizes, lags):
@@ -472,6 +681,8 @@ def generate(rng, tier):
             cases.append({"kind": "comm", "n": n, "counts": C, "src": src, "snk": snk, "shape": lab})
     # round 3s: history probes (result overwritten by the caller, matrix / index sets / populations overwritten in place)
     cases += _hist_cases(rng, 18 * (4 if big else 1), [3, 4, 4, 5] + ([6] if big else []), lags)
+    # round 3s (second wave): integer dtypes, near-symmetric rare-event chains, many-state sparse chains
+    cases += _round3s2_cases(rng, big)
     if big:
         # small scope, exhaustive in the sets: every disjoint non-empty pair with <= 3 members each
         for n in (3, 4, 5):
@@ -502,7 +713,12 @@ def _tprob(c):
 SPARSE = ["csr", "csc", "coo", "lil"]
 LAYOUTS = ["dense-f", "dense-tview", "dense-strided", "dense-neg", "dense-ro", "dense-f32", "matrix"]
 REALLOC = "dense-realloc"   # history probes only: the caller drops the matrix and allocates the next one (same address, usually)
-ALL_CONTAINERS = CONTAINERS + LAYOUTS + [REALLOC]
+# second wave: integer / boolean dtypes (only for 0/1 matrices, i.e. cyclic permutation matrices: the values are the same)
+INT_LAYOUTS = ["dense-i64", "dense-i32", "dense-bool", "dense-u8", "csr-i64", "csc-i32", "coo-bool", "lil-i64", "csr-bool"]
+# ... and the remaining scipy containers, used in the many-state stream
+MORE_SPARSE = ["dok", "bsr", "dia"]
+_DT = {"i64": np.int64, "i32": np.int32, "bool": np.bool_, "u8": np.uint8}
+ALL_CONTAINERS = CONTAINERS + LAYOUTS + INT_LAYOUTS + MORE_SPARSE + [REALLOC]
 GAP = 0.375     # what the cells between the elements of the strided view hold
 
 
@@ -514,11 +730,19 @@ def _names(c):
             nm = _names(ph)
             out = nm if out is None else [x for x in out if x in nm]
         return out
+    if c.get("stream") == "large":
+        return CONTAINERS + MORE_SPARSE + ["dense-f"]
     out = CONTAINERS + LAYOUTS
+    if _zero_one(c["counts"]):
+        out = out + INT_LAYOUTS
     # float32 input: only where the conversion is exact (dyadic chain) and the code computes in double anyway (with
     # populations=None the eigen-solver runs in single precision: ~1e-7, nothing the property speaks about)
-    if not _dyadic(c["counts"]) or (c["kind"] == "mfpt_a" and c["pops"] == "none"):
+    single = c["kind"] == "mfpt_a" and c["pops"] == "none"
+    if not _dyadic(c["counts"]) or single or not _f32_exact(c):
         out.remove("dense-f32")
+    if single:
+        # likewise boolean / 8-bit integer input: scipy.linalg.eig promotes them to single precision
+        out = [x for x in out if not x.endswith(("-bool", "-u8"))]
     return out
 
 
@@ -527,13 +751,16 @@ def _mk(name, T):
     that layout / dtype / writeability, holding exactly T' (and nothing around a view was touched)"""
     import scipy.sparse as sp
     n = len(T)
-    if name in SPARSE:
-        X = getattr(sp, name + "_matrix")(T)
-        nnz = X.nnz
+    fmt, _, dt = name.partition("-")
+    if fmt in SPARSE + MORE_SPARSE:
+        X = getattr(sp, fmt + "_matrix")(T.astype(_DT[dt]) if dt else T)
+        nnz, dtype = X.nnz, X.dtype
+        if dt and not (X.toarray() == T).all():
+            raise RuntimeError("%s does not hold the matrix exactly" % name)
 
         def same(T2):
-            return bool(sp.issparse(X) and X.format == name and X.shape == T2.shape and X.dtype == np.float64
-                        and X.nnz == nnz and (X.toarray() == T2).all())
+            return bool(sp.issparse(X) and X.format == fmt and X.shape == T2.shape and X.dtype == dtype
+                        and (dt or dtype == np.float64) and X.nnz == nnz and (X.toarray() == T2).all())
         return X, same
     base = None
     if name == "dense":
@@ -557,6 +784,10 @@ def _mk(name, T):
         X = T.astype(np.float32)
     elif name == "matrix":
         X = np.matrix(T)
+    elif fmt == "dense" and dt in _DT:
+        X = T.astype(_DT[dt])
+        if not (X == T).all():
+            raise RuntimeError("%s does not hold the matrix exactly" % name)
     else:
         raise ValueError(name)
     sig = (type(X), X.dtype, X.shape, X.strides, X.flags.writeable, X.flags.c_contiguous, X.flags.f_contiguous)
@@ -854,16 +1085,32 @@ def oracle(c, r):
             " (also: %s)" % ", ".join("%s %s" % (b, r[b].get("err")) for b in bad[1:])) if bad[1:] else "")))
     if out:
         return out
+    # tolerance: 1e-9 relative, except in the near-symmetric rare-event stream (stiff chains; see _nearsym_atol)
+    close = _close
+    if c.get("stream") == "nearsym":
+        atol = _nearsym_atol(c)
+        close = lambda a, b: abs(a - b) <= atol
     # dense and sparse inputs give the same values
     d = _flat(r["dense"]["val"])
     for name in CONTAINERS[1:]:
         s = _flat(r[name]["val"])
-        if len(s) != len(d) or not all(_close(F(a), F(b)) for a, b in zip(d, s)):
-            out.append(("container-agreement", "%s result differs from dense: %s vs %s" % (name, s, d)))
-    T = [[F(x) for x in row] for row in _tprob(c).tolist()]
+        if s != d and (len(s) != len(d) or not all(close(F(a), F(b)) for a, b in zip(d, s))):
+            out.append(("container-agreement", "%s result differs from dense: %s vs %s" % (name, s[:40], d[:40])))
+    # the transition matrix, row by row, non-zero entries only (the sums below skip exact zeros)
+    T = [[(j, F(x)) for j, x in enumerate(row) if x != 0] for row in _tprob(c).tolist()]
+    # a container whose result is bit for bit the one of a container already judged needs no second evaluation
+    judged = []
+
+    def fresh(name):
+        if any(r[name]["val"] == r[p]["val"] for p in judged):
+            return False
+        judged.append(name)
+        return True
     if c["kind"] == "comm":
         src, snk = c["src"], c["snk"]
         for name in CONTAINERS:
+            if not fresh(name):
+                continue
             q = [F(x) for x in r[name]["val"]]
             if len(q) != n:
                 out.append(("comm-shape", "%s: %d values for %d states" % (name, len(q), n)))
@@ -878,12 +1125,14 @@ def oracle(c, r):
                 else:
                     if not (-TOL <= q[i] <= 1 + TOL):
                         out.append(("comm-bounds", "%s: q[%d]=%s outside [0,1]" % (name, i, float(q[i]))))
-                    avg = sum(T[i][j] * q[j] for j in range(n))
+                    avg = sum(x * q[j] for j, x in T[i])
                     if not _close(q[i], avg):
                         out.append(("comm-first-step", "%s: q[%d]=%s but sum_j T[%d,j] q[j]=%s" % (name, i, float(q[i]), i, float(avg))))
     elif c["kind"] == "mfpt_s":
         snk, lag = c["snk"], F(c["lag"])
         for name in CONTAINERS:
+            if not fresh(name):
+                continue
             t = [F(x) for x in r[name]["val"]]
             if len(t) != n:
                 out.append(("mfpt-shape", "%s: %d values for %d states" % (name, len(t), n)))
@@ -893,7 +1142,7 @@ def oracle(c, r):
                     if t[i] != 0:
                         out.append(("mfpt-sink-zero", "%s: t[%d]=%s on a sink" % (name, i, float(t[i]))))
                 else:
-                    rhs = lag + sum(T[i][j] * t[j] for j in range(n))
+                    rhs = lag + sum(x * t[j] for j, x in T[i])
                     if not _close(t[i], rhs):
                         out.append(("mfpt-first-step", "%s: t[%d]=%s but lag + sum_j T[%d,j] t[j]=%s" % (name, i, float(t[i]), i, float(rhs))))
         if "val" in r["lag1"]:
@@ -904,6 +1153,8 @@ def oracle(c, r):
     else:
         lag = F(c["lag"])
         for name in CONTAINERS:
+            if not fresh(name):
+                continue
             M = [[F(x) for x in row] for row in r[name]["val"]]
             if len(M) != n or any(len(row) != n for row in M):
                 out.append(("mfpt-shape", "%s: table is not %dx%d" % (name, n, n)))
@@ -913,13 +1164,13 @@ def oracle(c, r):
                     out.append(("mfpt-all-diagonal", "%s: m[%d,%d]=%s" % (name, j, j, float(M[j][j]))))
                 for i in range(n):
                     if i != j:
-                        rhs = lag + sum(T[i][k] * M[k][j] for k in range(n) if k != j)
-                        if not _close(M[i][j], rhs):
+                        rhs = lag + sum(x * M[k][j] for k, x in T[i] if k != j)
+                        if not close(M[i][j], rhs):
                             out.append(("mfpt-all-first-step", "%s: m[%d,%d]=%s but lag + sum_{k!=j} T[i,k] m[k,j]=%s" % (name, i, j, float(M[i][j]), float(rhs))))
                 col = r["cols"][j]
-                if "val" not in col or not all(_close(M[i][j], F(col["val"][i])) for i in range(n)):
+                if "val" not in col or not all(close(M[i][j], F(col["val"][i])) for i in range(n)):
                     out.append(("mfpt-column-agreement", "%s: column %d of the all-pairs table %s != mfpts(sinks=[%d]) %s" % (
-                        name, j, [float(M[i][j]) for i in range(n)], j, col)))
+                        name, j, [float(M[i][j]) for i in range(n)][:40], j, str(col)[:600])))
         if "val" in r["lag1"]:
             if not all(_close(F(a), lag * F(b)) for a, b in zip(_flat(r["dense"]["val"]), _flat(r["lag1"]["val"]))):
                 out.append(("mfpt-lag-linear", "mfpts(lagtime=%s) != %s * mfpts(lagtime=1)" % (lag, lag)))
@@ -970,6 +1221,10 @@ def coq_check(c, r):
                 done.append((x, rx))
                 parts.append(coq_check(x, rx))
         return "(%s)" % " && ".join(parts)
+    if c.get("stream") in ("large", "nearsym"):
+        # many states: exact elimination inside Coq is out of reach (n^4); near-symmetric rare-event chains: the
+        # implementation is only accurate to ~1e-5 of the table's scale (see _nearsym_atol).  Oracle only.
+        return None
     tol = cq(TOL)
     two_d = c["kind"] == "mfpt_a"
     close = "(CaseLib.qll_close %s)" % tol if two_d else "(CaseLib.ql_close %s)" % tol
@@ -999,6 +1254,8 @@ def coq_check(c, r):
 
 
 def coq_show(c):
+    if c.get("stream") == "large":
+        return "tt"
     if c["kind"] in ("seq", "hist"):
         return "(%s)" % ", ".join(_model(x, None, "_g") for x in c["calls" if c["kind"] == "seq" else "phases"])
     return _model(c, None, "_g")
@@ -1024,6 +1281,16 @@ def nontrivial(c, r):
 
 def _dyadic(C):
     return all((sum(r) & (sum(r) - 1)) == 0 for r in C)
+
+
+def _f32_exact(c):
+    T = _tprob(c)
+    return bool((T.astype(np.float32) == T).all())
+
+
+def _zero_one(C):
+    """a 0/1 matrix with row sums 1: it is its own transition matrix and can be held in an integer or boolean array"""
+    return all(sum(r) == 1 and all(x in (0, 1) for x in r) for r in C)
 
 
 def tags(c, r):
@@ -1101,6 +1368,21 @@ def tags(c, r):
         t.append("layouts-" + {"comm": "committors", "mfpt_s": "mfpt-sinks", "mfpt_a": "mfpt-all"}[c["kind"]])
         if "val" in r.get("dense-f32", {}):
             t.append("float32-" + {"comm": "committors", "mfpt_s": "mfpt-sinks", "mfpt_a": "mfpt-all"}[c["kind"]])
+    # round 3s, second wave
+    what = {"comm": "committors", "mfpt_s": "mfpt-sinks", "mfpt_a": "mfpt-all"}[c["kind"]]
+    ints = [nm for nm in INT_LAYOUTS if nm in r]
+    if _in_scope(c) and len(ints) >= 5 and all("val" in r[nm] for nm in ints):
+        t.append("int-dtype-" + what)
+        if "lag" in c and F(c["lag"]).denominator != 1:
+            t.append("int-dtype-noninteger-lag-" + what)
+            if c["kind"] == "mfpt_s" and len(c["snk"]) > 1:
+                t.append("int-dtype-noninteger-lag-mfpt-multi-sink")
+    if c.get("stream") == "nearsym" and "val" in r["dense"]:
+        t.append("nearsym-all-pairs-pops-" + c["pops"])
+    if c.get("stream") == "large" and _in_scope(c) and all("val" in r.get(nm, {}) for nm in SPARSE + MORE_SPARSE):
+        t.append("large-sparse-" + what)
+        if n >= 200:
+            t.append("large-sparse-200plus-" + what)
     return t
 
 
